@@ -56,6 +56,7 @@ type TxWorld struct {
 	pub      crypto.PublicKey
 	algo     httpsig.Algorithm
 	Attempts []txAttempt
+	SignFails []txAttempt // requests the signer refused (fault sign_err): they never reach the HTTP client
 	Signs    []txSign
 	inSigner map[string]string // signer name -> task currently inside
 	clock    *SimClock
@@ -97,7 +98,8 @@ func (r *recSigner) SignRequest(pKey crypto.PrivateKey, pubKeyId string, req *ht
 	t = s.cur
 	defer delete(w.inSigner, r.name)
 	if msg.fault != nil {
-		s.logEv(Event{Kind: "signer." + r.name, Fault: true, Res: "err"})
+		s.logEv(Event{Kind: "signer." + r.name, ID: req.URL.String(), Fault: true, Res: "err"})
+		w.SignFails = append(w.SignFails, txAttempt{Task: t.ID, Method: req.Method, URL: req.URL.String(), Fate: "sign_err", Seq: len(s.Log)})
 		return errInjected
 	}
 	// arguments
